@@ -1,6 +1,10 @@
 //! C07/C08 harness: process image + drivers + fault latch + safe state, through the real
 //! compiler and Runtime::execute_cycle with scripted logging drivers.
 //!
+//! ids starting with t: the same case compiled as TWO programs under two periodic tasks of one resource (1 ms interval, the clock is
+//!   advanced 1 ms before every cycle): Main (priority 1) holds the variables, the bindings and all statements, Aux (priority 2, runs
+//!   second) holds the faulting statement, which is the LAST statement of the modelled program - the model and the expected
+//!   observations are those of the single program
 //! Case line:  <id> : <config> : <ops> : <observations>
 //!   config = nb { area(0 I,1 Q,2 M) size(0 X,1 B,2 W,3 D,4 L) byte bit ty var } nv { ty }   (types 0..12 as in Model/Cycle.v)
 //!            np { 0 dst src | 1 trig } ns { area size byte bit value(-1 = ill-typed entry) }
@@ -41,6 +45,8 @@ enum Op { Cycle(Vec<DScript>), Watchdog(Vec<DScript>), SimFault(Vec<DScript>), S
 struct Case {
     bindings: Vec<Binding>, vtys: Vec<usize>, prog: Vec<Stmt>, safe: Vec<Safe>,
     policy: usize, wd: usize, nd: usize, lens: [usize; 3], ops: Vec<Op>,
+    /// compile as two programs under two tasks (ids t…); requires the FaultIf to be the last statement
+    split: bool,
 }
 
 fn addr_text(area: usize, size: usize, byte: u32, bit: u8) -> String {
@@ -55,7 +61,15 @@ fn addr_text(area: usize, size: usize, byte: u32, bit: u8) -> String {
 }
 
 fn source(c: &Case) -> String {
-    let mut s = String::from("PROGRAM Main\nVAR\n");
+    let split = c.split && matches!(c.prog.last(), Some(Stmt::FaultIf(_))) && c.prog.iter().filter(|s| matches!(s, Stmt::FaultIf(_))).count() == 1;
+    let mut s = String::new();
+    if split {
+        s += "CONFIGURATION C\nVAR_GLOBAL\n  gtrig : BOOL;\nEND_VAR\nRESOURCE R ON PLC\nTASK T1 (INTERVAL := T#1ms, PRIORITY := 1);\nTASK T2 (INTERVAL := T#1ms, PRIORITY := 2);\nPROGRAM Main WITH T1 : MainP;\nPROGRAM Aux WITH T2 : AuxP;\nEND_RESOURCE\nEND_CONFIGURATION\n";
+        s += "PROGRAM AuxP\nVAR_EXTERNAL\n  gtrig : BOOL;\nEND_VAR\nVAR\n  zero : INT := 0;\n  dz : INT;\nEND_VAR\nIF gtrig THEN dz := 1 / zero; END_IF;\nEND_PROGRAM\n";
+        s += "PROGRAM MainP\nVAR_EXTERNAL\n  gtrig : BOOL;\nEND_VAR\nVAR\n";
+    } else {
+        s += "PROGRAM Main\nVAR\n";
+    }
     for (i, t) in c.vtys.iter().enumerate() {
         match c.bindings.iter().find(|b| b.var == i) {
             Some(b) => s += &format!("  v{i} AT {} : {};\n", addr_text(b.area, b.size, b.byte, b.bit), TYNAMES[*t]),
@@ -66,6 +80,7 @@ fn source(c: &Case) -> String {
     for st in &c.prog {
         match st {
             Stmt::Copy(d, sr) => s += &format!("v{d} := v{sr};\n"),
+            Stmt::FaultIf(t) if split => s += &format!("gtrig := v{t};\n"),
             Stmt::FaultIf(t) => s += &format!("IF v{t} THEN dz := 1 / zero; END_IF;\n"),
         }
     }
@@ -170,6 +185,7 @@ fn run_case(c: &Case) -> Result<String, String> {
         }
         let res = match op {
             Op::Cycle(_) => {
+                if c.split { h.advance_time(trust_runtime::value::Duration::from_millis(1)); }
                 let r = h.cycle();
                 match r.errors.first() {
                     None => 0,
@@ -232,8 +248,9 @@ fn gen_case(rng: &mut Rng) -> Case {
         }
     }
     let mut prog = Vec::new();
-    let fault_pos = rng.below(5) as usize;
+    let split = rng.chance(1, 4);
     let nst = rng.range(1, 6) as usize;
+    let fault_pos = if split { nst } else { rng.below(5) as usize };
     for k in 0..nst {
         if k == fault_pos { prog.push(Stmt::FaultIf(trig)); }
         let d = rng.below(nv as u64) as usize;
@@ -269,7 +286,7 @@ fn gen_case(rng: &mut Rng) -> Case {
             _ => ops.push(Op::Cycle(gen_scripts(rng, nd, 9))),
         }
     }
-    Case { bindings, vtys, prog, safe, policy: rng.below(3) as usize, wd: rng.below(3) as usize, nd, lens, ops }
+    Case { bindings, vtys, prog, safe, policy: rng.below(3) as usize, wd: rng.below(3) as usize, nd, lens, ops, split }
 }
 
 fn fmt_case(id: &str, c: &Case, obs: &str) -> String {
@@ -335,7 +352,8 @@ fn parse_case(line: &str) -> Option<(String, Case)> {
         }
         ops.push(match k { 0 => Op::Cycle(ds), 1 => Op::Watchdog(ds), _ => Op::SimFault(ds) });
     }
-    Some((id, Case { bindings, vtys, prog, safe, policy, wd, nd, lens, ops }))
+    let split = id.starts_with('t');
+    Some((id, Case { bindings, vtys, prog, safe, policy, wd, nd, lens, ops, split }))
 }
 
 fn main() {
@@ -360,7 +378,7 @@ fn main() {
     for k in 0..count {
         let c = gen_case(&mut rng);
         match run_case(&c) {
-            Ok(obs) => writeln!(out, "{}", fmt_case(&format!("c{k}"), &c, &obs)).unwrap(),
+            Ok(obs) => writeln!(out, "{}", fmt_case(&format!("{}{k}", if c.split { "t" } else { "c" }), &c, &obs)).unwrap(),
             Err(e) => writeln!(out, "c{k} ERROR {e}").unwrap(),
         }
     }
